@@ -444,6 +444,9 @@ impl Report {
         if check.crash_is_violation() {
             self.crash_is_violation = true;
         }
+        if !agg.timeouts.is_empty() || !agg.crashes.is_empty() {
+            eprintln!("[{}] timeouts at cases {:?}, crashes at cases {:?}", self.property, &agg.timeouts[..agg.timeouts.len().min(8)], &agg.crashes[..agg.crashes.len().min(8)]);
+        }
         let mut agg = agg;
         // crashes and timeouts become violations or machinery errors
         for &i in agg.timeouts.clone().iter() {
